@@ -83,13 +83,15 @@ def fingerprint(site):
         if op["k"] == "const":
             out.add("const")
             continue
-        for o in F.origins(fn, op, depth=8):
-            if o.kind == "arg":
-                fl = [e for e in (o.place["p"] if o.place else []) if isinstance(e, dict) and "f" in e]
-                out.add("field:" + fl[-1].get("ty", "?") if fl else "arg:" + fn.local_ty(o.arg))
-            elif o.kind == "place":
-                fl = [e for e in (o.place["p"] if o.place else []) if isinstance(e, dict) and "f" in e]
-                out.add("field:" + fl[-1].get("ty", "?") if fl else "local")
+        visited_fields = []
+
+        def visit(pl):
+            for e in pl["p"]:
+                if isinstance(e, dict) and "f" in e:
+                    visited_fields.append(e.get("ty", "?"))
+        for o in F.origins(fn, op, depth=8, visit=visit):
+            if o.kind in ("arg", "place"):
+                pass     # what matters is which fields were read on the way (below), not where the struct itself came from
             elif o.kind == "call":
                 out.add("call:" + short(o.call.name))
             elif o.kind == "const":
@@ -98,6 +100,10 @@ def fingerprint(site):
                 out.add("%s:%s" % (o.kind, o.extra))
             else:
                 out.add(o.kind)
+        if visited_fields:
+            out.add("field:" + visited_fields[-1])
+        elif not any(x.startswith("call:") or x == "const" for x in out):
+            out.add("local")
     return sorted(out)
 
 
